@@ -13,6 +13,35 @@ func handlerRefusesDeactivated(c *ev.Ctx) {
 	// C04 (c): behaviours in which the client keeps submitting after a deactivate; the real DocumentHandler (default
 	// decorator) must refuse exactly when the specification's resolution of the DID is deactivated, leaving queue and
 	// unpublished store untouched - checked by trace validation against Pipeline.tla.
+	// a create request for a DID that has been deactivated is a new operation for it, too
+	for _, unpub := range []bool{true, false} {
+		p, err := pipe.New(unpub, KeyTypeForSeed(c.Seed))
+		if err != nil {
+			ev.Fatal("pipeline wiring: %v", err)
+		}
+		for _, st := range []pipe.Step{{A: "Submit", D: 1, K: "C"}, {A: "Flush"}} {
+			if err := p.Exec(st, []int{1, 2}); err != nil {
+				ev.Fatal("scenario: %v", err)
+			}
+		}
+		p.ObserveMany([]string{"none"})
+		for _, st := range []pipe.Step{{A: "Submit", D: 1, K: "D"}, {A: "Flush"}} {
+			if err := p.Exec(st, []int{1, 2}); err != nil {
+				ev.Fatal("scenario: %v", err)
+			}
+		}
+		p.ObserveMany([]string{"none"})
+		accepted, qlen, err := p.ResubmitCreate(1)
+		if err != nil {
+			ev.Fatal("scenario: %v", err)
+		}
+		c.Cov.Evaluations++
+		if accepted || qlen != 0 {
+			c.Violation("create-request-for-deactivated-did-accepted", map[string]interface{}{"unpublished_store": unpub, "accepted": accepted, "queue_length_afterwards": qlen,
+				"scenario": "create, anchored, observed; deactivate, anchored, observed; the same create request submitted again"})
+		}
+		p.Close()
+	}
 	n := 60
 	if c.Tier == "thorough" {
 		n = 1500
